@@ -216,6 +216,13 @@ class Interp:
         S = V
         if fn is len:
             return S.blen(args[0])
+        if fn is next and args and isinstance(args[0], list):
+            # generator expressions are evaluated eagerly into lists by this interpreter: next() consumes from the front
+            if args[0]:
+                return args[0].pop(0)
+            if len(args) > 1:
+                return args[1]
+            raise StopIteration
         if fn is isinstance:
             obj, cls = args
             return _isinstance(obj, cls)
